@@ -84,6 +84,13 @@ fn ranges(t: &mut Tape, ctx: &mut Ctx, maxlen: usize) -> CheckResult {
             ensure!(ctx, r.start == $lo && r.end == $hi, "ranges", "to_range({}) = {}..{} want {}..{}", $name, r.start, r.end, $lo, $hi);
             let s = ax.get_range($r);
             ensure!(ctx, s == &x[$lo..$hi], "ranges", "get_range({}) = {:?} want {:?}", $name, s, &x[$lo..$hi]);
+            // the same range form as the destination of a write
+            let v: Vec<i16> = (0..$hi - $lo).map(|i| 100 + i as i16).collect();
+            let mut m = ax.clone();
+            m.set_range($r, &mk(v.clone()));
+            let mut want = x.clone();
+            want[$lo..$hi].copy_from_slice(&v);
+            ensure!(ctx, un(&m) == want, "set-range", "set_range({}) = {:?} want {:?}", $name, un(&m), want);
         }};
     }
     chk!(.., 0, n, "..");
